@@ -67,7 +67,7 @@ func refQuery(v string) qref {
 			return qref{Kind: "int", Int: n}
 		}
 		// out of the int64 range: a number by the rule, representation not pinned down
-		return qref{Kind: "unspec", Options: []string{"int", "float", "literal"}}
+		return qref{Kind: "unspec", Options: []string{"int", "float"}} // but a number, not the literal string
 	}
 	if i := strings.IndexByte(body, '.'); i >= 0 {
 		a, b := body[:i], body[i+1:]
